@@ -1,0 +1,23 @@
+//go:build verif
+
+package server
+
+import (
+	"context"
+
+	"github.com/paulsonkoly/chess-3/tools/tuner/shim"
+	"github.com/paulsonkoly/chess-3/tools/tuner/tui"
+)
+
+// VerifEpdProcess runs the server's batch / chunk / job scheduling loop on caller-supplied queues
+// (conformance harness, never in production).
+func VerifEpdProcess(
+	ctx context.Context,
+	fn, outFn string,
+	k float64,
+	jobQueue chan<- shim.Job,
+	resultQueue <-chan shim.Result,
+	tuiQueue chan<- tui.Update,
+) {
+	epdProcess(ctx, fn, outFn, k, jobQueue, resultQueue, tuiQueue)
+}
